@@ -320,14 +320,17 @@ func genPolicy(r *prng.R, ln int, disp bool) []string {
 	ops := []string{fmt.Sprintf("pcfg attempts=%d cooldown=%d mult=%d ranges=%s t0=%d", att, cd, mu, rg,
 		1_700_000_000_000_000_000+int64(r.Intn(1_000_000_000)))}
 	early := 0
+	kind := "fixed"
+	nx := 0
 	if disp {
 		// through the real dispatcher: some attempts are answered early by the gateway itself
 		early = prng.Pick(r, []int{429, 500, 503, 599, 404})
 		if r.Chance(60) {
 			rg = prng.Pick(r, []string{"429-429,500-599", "400-599", "500-599"})
 		}
-		ops = []string{fmt.Sprintf("dcfg attempts=%d cooldown=%d mult=%d ranges=%s early=%d t0=%d", att, cd, mu, rg, early,
-			1_700_000_000_000_000_000+int64(r.Intn(1_000_000_000)))}
+		kind = prng.Pick(r, []string{"fixed", "fixed", "strategy", "strategy", "concurrency"})
+		ops = []string{fmt.Sprintf("dcfg attempts=%d cooldown=%d mult=%d ranges=%s early=%d kind=%s t0=%d", att, cd, mu, rg, early,
+			kind, 1_700_000_000_000_000_000+int64(r.Intn(1_000_000_000)))}
 	}
 	nseq := r.Range(1, 4)
 	pool := append([]string{}, seqNames[:nseq]...)
@@ -363,9 +366,20 @@ func genPolicy(r *prng.R, ln int, disp bool) []string {
 			id = s + "-r0" // a sequence whose first response is never seen
 		}
 		started[s]++
+		if disp && r.Chance(22) {
+			// a call on the endpoint WITHOUT a retry remedy (own sequence ids)
+			started[s]--
+			nx++
+			if r.Chance(80) {
+				ops = append(ops, fmt.Sprintf("dreq id=x%d seq=x%d ep=n early=1", nx, nx))
+			} else {
+				ops = append(ops, fmt.Sprintf("dresp id=x%d seq=x%d ep=n status=%d", nx, nx, st))
+			}
+			continue
+		}
 		if disp {
 			switch x := r.Intn(100); {
-			case x < 55:
+			case x < 55 || (kind != "fixed" && x < 65):
 				ops = append(ops, fmt.Sprintf("dreq id=%s seq=%s early=1", id, s))
 			case x < 65:
 				started[s]--
